@@ -755,8 +755,32 @@ func readersUseIsBenign(u ssa.Value) bool {
 			}
 		case ssa.CallInstruction:
 			b, ok := x.Common().Value.(*ssa.Builtin)
-			if !ok || !(b.Name() == "len" || b.Name() == "delete" || b.Name() == "clear") {
+			if !ok || !(b.Name() == "len" || b.Name() == "cap" || b.Name() == "delete" || b.Name() == "clear" || b.Name() == "append") {
 				return false
+			}
+		case *ssa.Slice:
+			// the readers kept in a slice: re-extended / cut, and stored back
+			if x.X != u {
+				return false
+			}
+		case *ssa.IndexAddr:
+			if x.X != u {
+				return false
+			}
+			for _, r2 := range *x.Referrers() {
+				switch y := r2.(type) {
+				case *ssa.DebugRef:
+				case *ssa.Store:
+					if y.Addr != ssa.Value(x) {
+						return false
+					}
+				case *ssa.UnOp:
+					if !valueBenign(y, 0) {
+						return false
+					}
+				default:
+					return false
+				}
 			}
 		default:
 			return false
@@ -809,6 +833,78 @@ func deleteAllLoops(fn *ssa.Function) map[*ssa.BasicBlock]bool {
 	return out
 }
 
+// nilAllLoops: the readers kept in a slice are emptied by `for i, old := range dvs.dvrs { ...; dvs.dvrs[i] =
+// nil }` — the store on every iteration, or only where the slot was found non-nil. Returns the loop
+// headers whose exhausted edge means "no reader left".
+func nilAllLoops(fn *ssa.Function) map[*ssa.BasicBlock]bool {
+	out := map[*ssa.BasicBlock]bool{}
+	for _, l := range naturalLoops(fn) {
+		head := l.header
+		iff, ok := head.Instrs[len(head.Instrs)-1].(*ssa.If)
+		if !ok {
+			continue
+		}
+		bo, ok := iff.Cond.(*ssa.BinOp)
+		if !ok || bo.Op != token.LSS {
+			continue
+		}
+		la := lenArgOf(bo.Y)
+		if la == nil || !isLoadOfField(la, "docVisitState", "dvrs") {
+			continue
+		}
+		idx := bo.X
+		for b := range l.blocks {
+			for _, in := range b.Instrs {
+				st, ok := in.(*ssa.Store)
+				if !ok || !isNilConst(st.Val) {
+					continue
+				}
+				ia, ok := st.Addr.(*ssa.IndexAddr)
+				if !ok || ia.Index != idx || !isLoadOfField(ia.X, "docVisitState", "dvrs") {
+					continue
+				}
+				// on every iteration, or under `slot != nil` only
+				every := true
+				for _, pr := range head.Preds {
+					if head.Dominates(pr) && !(b == pr || b.Dominates(pr)) {
+						every = false
+					}
+				}
+				if !every {
+					every = true
+					for _, d := range controlDeps(fn)[b] {
+						if !l.blocks[d.Branch] || d.Branch == head {
+							continue
+						}
+						c2, ok := branchCond(d.Branch).(*ssa.BinOp)
+						if !ok || c2.Op != token.NEQ || !(isNilConst(c2.Y) || isNilConst(c2.X)) {
+							every = false
+							continue
+						}
+						x := c2.X
+						if isNilConst(x) {
+							x = c2.Y
+						}
+						u, ok := x.(*ssa.UnOp)
+						if !ok {
+							every = false
+							continue
+						}
+						ia2, ok := u.X.(*ssa.IndexAddr)
+						if !ok || ia2.Index != idx || !isLoadOfField(ia2.X, "docVisitState", "dvrs") {
+							every = false
+						}
+					}
+				}
+				if every {
+					out[head] = true
+				}
+			}
+		}
+	}
+	return out
+}
+
 func ruleR20() *Rule {
 	return &Rule{
 		ID:    "R20",
@@ -836,6 +932,15 @@ func ruleR20() *Rule {
 					if sn, fld, _, ok := fieldOf(x.Addr); ok && sn == "docVisitState" && fld == "dvrs" && dropsReaders(x.Val) {
 						return []uint64{ev &^ evStale}
 					}
+					if sn, fld, _, ok := fieldOf(x.Addr); ok && sn == "docVisitState" {
+						if k, isK := constBool(x.Val); isK && fld != "" {
+							ev &^= 3 << 8
+							if k {
+								return []uint64{ev | 1<<9}
+							}
+							return []uint64{ev | 1<<8}
+						}
+					}
 				case ssa.CallInstruction:
 					if b, ok := x.Common().Value.(*ssa.Builtin); ok && b.Name() == "clear" && len(x.Common().Args) == 1 && isLoadOfField(x.Common().Args[0], "docVisitState", "dvrs") {
 						return []uint64{ev &^ evStale}
@@ -850,6 +955,39 @@ func ruleR20() *Rule {
 			})
 			nCmp := 0
 			delLoops := deleteAllLoops(fn)
+			for h := range nilAllLoops(fn) {
+				delLoops[h] = true
+			}
+			// a bool field of the state that the function sets and tests (`dvs.resolved = false` ... `if
+			// !dvs.resolved`): the last constant stored is what a later test sees
+			const (
+				evFlagFalse = 1 << 8
+				evFlagTrue  = 1 << 9
+			)
+			flagField := ""
+			eachInstr(fn, func(_ *ssa.BasicBlock, in ssa.Instruction) {
+				if st, ok := in.(*ssa.Store); ok {
+					if sn, fld, _, ok := fieldOf(st.Addr); ok && sn == "docVisitState" {
+						if _, isK := constBool(st.Val); isK {
+							flagField = fld
+						}
+					}
+				}
+			})
+			flagTest := func(cond ssa.Value) (whenTrue bool, ok bool) {
+				neg := false
+				for {
+					if u, isU := cond.(*ssa.UnOp); isU && u.Op == token.NOT {
+						cond, neg = u.X, !neg
+						continue
+					}
+					break
+				}
+				if flagField == "" || !isLoadOfField(cond, "docVisitState", flagField) {
+					return false, false
+				}
+				return !neg, true
+			}
 			pa.edgeTr = func(pred *ssa.BasicBlock, succIdx int, ev uint64) uint64 {
 				iff, ok := pred.Instrs[len(pred.Instrs)-1].(*ssa.If)
 				if !ok {
@@ -881,6 +1019,25 @@ func ruleR20() *Rule {
 					ev |= evStale
 				}
 				return ev
+			}
+			pa.edge = func(pred, succ *ssa.BasicBlock, ev uint64) bool {
+				iff, ok := pred.Instrs[len(pred.Instrs)-1].(*ssa.If)
+				if !ok || len(pred.Succs) != 2 || pred.Succs[0] == pred.Succs[1] {
+					return true
+				}
+				whenTrue, ok := flagTest(iff.Cond)
+				if !ok {
+					return true
+				}
+				// the edge claims the flag is...
+				claimsTrue := (succ == pred.Succs[0]) == whenTrue
+				if ev&evFlagFalse != 0 && claimsTrue {
+					return false
+				}
+				if ev&evFlagTrue != 0 && !claimsTrue {
+					return false
+				}
+				return true
 			}
 			pa.run(0)
 			c.check(nCmp > 0, "compare-exists", c.fpos(fn), "VisitDocValues compares a reused state's segment with the segment being visited", "no comparison of docVisitState.segment with the receiver: a state reused on another segment keeps readers pointing into the old segment's bytes")
@@ -1057,6 +1214,11 @@ func ruleR4() *Rule {
 					}
 				case *ssa.Lookup:
 					return isDvrs(x.X, 0)
+				case *ssa.UnOp:
+					// an element of the visit state's readers kept in a slice indexed by field id
+					if ia, ok := x.X.(*ssa.IndexAddr); ok && x.Op == token.MUL {
+						return isDvrs(ia.X, 0)
+					}
 				case *ssa.Phi:
 					for _, e := range x.Edges {
 						if e == ssa.Value(x) {
@@ -1103,6 +1265,26 @@ func ruleR4() *Rule {
 					call, isCall := root(mu.Value).(*ssa.Call)
 					c.check(isCall && call.Call.StaticCallee() == clone, fmt.Sprintf("state-holds-clones/%s#%d", funcShortName(fn), nu), c.pos(mu),
 						"what is stored into a visit state's reader map is a cloneInto result", "a shared reader is stored into the per-caller visit state without cloning", "store: "+describeInstr(p, mu))
+				})
+			}
+			// (the same when the readers are kept in a slice: element stores)
+			for _, fn := range p.ZapFuncs {
+				eachInstr(fn, func(_ *ssa.BasicBlock, in ssa.Instruction) {
+					st, ok := in.(*ssa.Store)
+					if !ok {
+						return
+					}
+					ia, ok := st.Addr.(*ssa.IndexAddr)
+					if !ok || !isDvrs(ia.X, 0) {
+						return
+					}
+					if isNilConst(st.Val) {
+						return // emptying a slot
+					}
+					nu++
+					call, isCall := root(st.Val).(*ssa.Call)
+					c.check(isCall && call.Call.StaticCallee() == clone, fmt.Sprintf("state-holds-clones/%s#%d", funcShortName(fn), nu), c.pos(st),
+						"what is stored into a visit state's readers is a cloneInto result", "a shared reader is stored into the per-caller visit state without cloning", "store: "+describeInstr(p, st))
 				})
 			}
 			c.check(nu >= 1, "state-holds-clones/sites", "-", "stores into docVisitState.dvrs are found", "none")
